@@ -38,7 +38,12 @@ def _is_int_array(a):
     return isinstance(a, np.ndarray) and a.dtype.kind == "i"
 
 
-def pack(A, fmt):
+def pack(A, fmt, dup=False):
+    if dup:
+        # non-canonical storage: every entry split into two stored parts, a few explicit zeros
+        from ..gen import _pack
+
+        return _pack(A, fmt, dup, shape=np.asarray(A).shape)
     return {"coo": sps.coo_matrix, "csr": sps.csr_matrix, "csc": sps.csc_matrix}[fmt](A)
 
 
@@ -46,7 +51,7 @@ class DataProblem:
     """Built lazily (needs pygradflow.problem.Problem)."""
 
 
-def make_problem(g, J, H, lb, ub, fmt):
+def make_problem(g, J, H, lb, ub, fmt, dup=False):
     from pygradflow.problem import Problem
 
     class P(Problem):
@@ -65,10 +70,10 @@ def make_problem(g, J, H, lb, ub, fmt):
             return J @ x + cvals0
 
         def cons_jac(self, x):
-            return pack(J, fmt)
+            return pack(J, fmt, dup)
 
         def lag_hess(self, x, y):
-            return pack(H, fmt)
+            return pack(H, fmt, dup)
 
     cvals0 = np.zeros(J.shape[0])
     return P()
@@ -94,7 +99,7 @@ def run_case(case):
         ctr[k] = ctr.get(k, 0) + v
 
     def bad(kind, what, detail, mclass, via):
-        viol.append({"what": what, "key": {"scaling": kind, "class": mclass, "via": via}, "detail": detail})
+        viol.append({"what": what, "key": {"scaling": kind, "class": mclass, "via": via, "dup": dup}, "detail": detail})
 
     for k in range(case["count"]):
         kind = ["Nominal", "GradJac", "KKT"][k % 3]
@@ -102,12 +107,14 @@ def run_case(case):
         n = int(rng.integers(1, 9))
         m = int(rng.integers(0, 6))
         fmt = str(rng.choice(["coo", "csr", "csc"]))
+        dup = int(rng.choice([0, 0, 1, 2]))
         dens = float(rng.choice([1.0, 0.7, 0.4]))
         via = str(rng.choice(["direct", "create_scaling", "Transformation"]))
         tag = "%s-%s-%s-%d-%d-%d" % (kind, mclass, via, n, m, k + 1000 * case["seed"][-1])
         bump("kind_%s" % kind)
         bump("class_%s" % mclass)
         bump("via_%s" % via)
+        bump("noncanonical_storage", int(bool(dup)))
         try:
             if kind == "Nominal":
                 xv = rand_mag(rng, n, lo, hi, dens)
@@ -140,11 +147,17 @@ def run_case(case):
 
             g = rand_mag(rng, n, lo, hi, dens if rng.random() < 0.5 else 1.0)
             J = rand_mag(rng, (m, n), lo, hi, dens)
+            intdata = bool(rng.random() < 0.2)
+            if intdata:
+                # integer coefficients handed over with an integer dtype (next to gradients of any magnitude)
+                J = (rng.integers(-9, 10, size=(m, n)) * (rng.random(size=(m, n)) < dens)).astype(np.int64)
+                dup = 0
+                bump("integer_dtype_jacobians")
             if kind == "GradJac":
                 if via == "direct":
-                    sc = Scaling.from_grad_jac(np.copy(g), pack(J, fmt) if m or rng.random() < 0.5 else None)
+                    sc = Scaling.from_grad_jac(np.copy(g), pack(J, fmt, dup) if m or rng.random() < 0.5 else None)
                 else:
-                    prob = make_problem(g, J, np.eye(n), np.full(n, -np.inf), np.full(n, np.inf), fmt)
+                    prob = make_problem(g, J, np.eye(n), np.full(n, -np.inf), np.full(n, np.inf), fmt, dup)
                     params = Params(scaling_type=ScalingType.GradJac, scaling_primal=rng.normal(size=n))
                     sc = (create_scaling(prob, params, params.scaling_primal, None) if via == "create_scaling"
                           else Transformation(prob, params).scaling)
@@ -178,11 +191,14 @@ def run_case(case):
             # KKT
             Hs = rand_mag(rng, (n, n), lo, hi, dens)
             H = np.triu(Hs) + np.triu(Hs, 1).T
+            if intdata:
+                Hi = rng.integers(-9, 10, size=(n, n)) * (rng.random(size=(n, n)) < dens)
+                H = (np.triu(Hi) + np.triu(Hi, 1).T).astype(np.int64)
             try:
                 if via == "direct":
-                    sc = Scaling.from_equilibrated_kkt(pack(H, fmt), pack(J, fmt))
+                    sc = Scaling.from_equilibrated_kkt(pack(H, fmt, dup), pack(J, fmt, dup))
                 else:
-                    prob = make_problem(g, J, H, np.full(n, -np.inf), np.full(n, np.inf), fmt)
+                    prob = make_problem(g, J, H, np.full(n, -np.inf), np.full(n, np.inf), fmt, dup)
                     params = Params(scaling_type=ScalingType.KKT, scaling_primal=rng.normal(size=n),
                                     scaling_dual=rng.normal(size=m))
                     sc = (create_scaling(prob, params, params.scaling_primal, params.scaling_dual)
@@ -227,7 +243,8 @@ def finalize(agg, tier):
                 "create_scaling and from Transformation; non-trivial = the scaling was returned and its weights were "
                 "applied to the data by the ldexp oracle; distinct by (kind, class, route, sizes, index)",
         "floors": {"nominal_values_checked": 1000, "gradjac_rows_checked": 500, "gradjac_rows_all_below_one": 100,
-                   "kkt_columns_checked": 1000, "kkt_columns_sum_below_one_before": 100, "kkt_returned": 300},
+                   "kkt_columns_checked": 1000, "kkt_columns_sum_below_one_before": 100, "kkt_returned": 300,
+                   "integer_dtype_jacobians": 100},
         "assumptions": ["zero values / zero rows / zero columns are excepted as in the statement; "
                         "'Equilibration failed to converge' is counted, not judged ('whenever it returns')"],
     }
